@@ -48,8 +48,42 @@ pub fn replay(args: &[String]) {
         register_extended();
     }
     verif_hooks::init();
-    let recs = read_ndjson(path);
     let mut out = Out::new(None);
+    replay_file(path, &mut out, "");
+    out.flush();
+}
+
+fn register_one(kind: &str, op: &str) {
+    use expression_engine::*;
+    match kind {
+        "prefix" => register_prefix_op(op, Arc::new(|v| Ok(v))),
+        "postfix" => register_postfix_op(op, Arc::new(|v| Ok(v))),
+        "infix" => register_infix_op(op, 111, InfixOpType::CALC, InfixOpAssociativity::LEFT, Arc::new(|a, _| Ok(a))),
+        "function" => register_function(op, Arc::new(|_| Ok(Value::None))),
+        _ => tool_error("bad registration kind"),
+    }
+}
+
+/// A history in one process: [{"replay": file, "stage": name} | {"reg": [kind, op]}] - tokenizations under the operator
+/// set registered so far, interleaved with registrations (C10 under extended operator sets, C08/C16: the tokenizer may
+/// not remember anything across registrations).
+pub fn history(args: &[String]) {
+    silence_panics();
+    let script: J = serde_json::from_str(&std::fs::read_to_string(&args[0]).unwrap_or_else(|e| tool_error(&e.to_string()))).unwrap_or_else(|e| tool_error(&e.to_string()));
+    verif_hooks::init();
+    let mut out = Out::new(None);
+    for step in script.as_array().unwrap() {
+        if let Some(r) = step.get("reg") {
+            register_one(r[0].as_str().unwrap(), r[1].as_str().unwrap());
+        } else {
+            replay_file(step["replay"].as_str().unwrap(), &mut out, step["stage"].as_str().unwrap_or(""));
+        }
+    }
+    out.flush();
+}
+
+fn replay_file(path: &str, out: &mut Out, stage: &str) {
+    let recs = read_ndjson(path);
     let (mut n, mut bad, mut dcs, mut errs) = (0u64, 0u64, 0u64, 0u64);
     for (idx, r) in recs.iter().enumerate() {
         let s = cps_to_string(r["chars"].as_array().unwrap());
@@ -59,7 +93,7 @@ pub fn replay(args: &[String]) {
             dcs += 1;
             if got["panic"].as_bool().unwrap() {
                 bad += 1;
-                out.line(&json!({"mismatch": idx, "why": "panic", "input": s, "chars": r["chars"], "got": got}));
+                out.line(&json!({"mismatch": idx, "stage": stage, "why": "panic", "input": s, "chars": r["chars"], "got": got}));
             }
             continue;
         }
@@ -89,11 +123,10 @@ pub fn replay(args: &[String]) {
         }
         if let Some(w) = why {
             bad += 1;
-            out.line(&json!({"mismatch": idx, "why": w, "input": s, "chars": r["chars"], "expected": {"ok": r["ok"], "toks": r["toks"]}, "got": got}));
+            out.line(&json!({"mismatch": idx, "stage": stage, "why": w, "input": s, "chars": r["chars"], "expected": {"ok": r["ok"], "toks": r["toks"]}, "got": got}));
         }
     }
-    out.line(&json!({"summary": {"replayed": n, "mismatches": bad, "dontcare": dcs, "expected_err": errs}}));
-    out.flush();
+    out.line(&json!({"summary": {"replayed": n, "mismatches": bad, "dontcare": dcs, "expected_err": errs, "stage": stage}}));
 }
 
 const WORDS: &[&str] = &[
